@@ -79,7 +79,7 @@ PROPS = {"C01": c01, "C02": c02, "C03": two_builds("C03"), "C04": two_builds("C0
          "C15": two_builds("C15"),
          "C16": lambda tier, dev: run_cs_property("C16", tier, [Campaign("C16", "plain")] + fuzz_campaigns("C16", tier, ["C16"]), assumptions=ASSUME_GENERIC[:2] + ["comparators are consistent total preorders"], dev=dev),
          "C20": lambda tier, dev: run_cs_property("C20", tier, [Campaign("C20", "plain")], level="fault_enumeration", assumptions=ASSUME_GENERIC[:2] + ["allocation requests of the statically linked library are intercepted with -Wl,--wrap=malloc,calloc,realloc,free; allocations made inside libc on the library's behalf are not"], dev=dev),
-         "C13": lambda tier, dev: run_cs_property("C13", tier, [Campaign("C13", "plain")], assumptions=ASSUME_GENERIC[:2] + ["the harness owns the schedule: real pthreads execute one operation at a time, so the interleaving is the generated sequence", "the default handler is observed through -Wl,--wrap=ignore_handler_s"], dev=dev),
+         "C13": lambda tier, dev: run_cs_property("C13", tier, [Campaign("C13", "plain"), Campaign("C20", "plain", keymap=(r":wrong-handler-kind", "C13"))], assumptions=ASSUME_GENERIC[:2] + ["the harness owns the schedule: real pthreads execute one operation at a time, so the interleaving is the generated sequence", "the default handler is observed through -Wl,--wrap=ignore_handler_s"], dev=dev),
          "C12": lambda tier, dev: run_cs_property("C12", tier, [Campaign("C12", "shared"), optional(Campaign("C12T", "tsan", cases=(3000 if tier == "quick" else 60000)))], assumptions=["O-B: the same calls made by two threads on private buffers under ThreadSanitizer (clang -fsanitize=thread build of library and harness); a reported race on an object of the executable is attributed by symbol", "x86-64 Linux/glibc; the harness is linked against libsafec.so built from the working tree (gcc -O1 -fPIC); the writable PT_LOAD segment of the library minus RELRO is its static storage", "state kept inside libc on the library's behalf is libc's reentrancy, not judged", "the handler registration words str_handler/mem_handler are the allowed mutable state"], dev=dev),
          "C05": lambda tier, dev: run_cs_property("C05", tier, [Campaign("C05", "plain")] + foreign_campaigns("C05", tier), assumptions=ASSUME_GENERIC, dev=dev)}
 
